@@ -11,7 +11,9 @@ pub fn run(ctx: &Ctx, fmt: Fmt) -> i32 {
     let mut rep = Report::new(
         "Cases are generated from a mixture of families built from the rounding boundaries outward \
          (G-B exact midpoints and perturbations, G-C continued-fraction closest approaches, G-A shaped random, \
-         G-D short exact ties, G-E algorithm seams, G-F range ends, G-G long tails), parsed in all 8 feature \
+         G-D short exact ties (also zero-padded across the digit limit), G-E algorithm and product seams, G-F range \
+         ends and uncompensable exponents, G-G long tails, G-M Lemire lo==MAX pairs, G-N sparse-limb integers, G-P \
+         powers of two next to a boundary, G-R special 19-digit prefixes, G-T tie integers by bit length), parsed in all 8 feature \
          configurations and judged by the exact boundary-comparison oracle. A case is non-trivial if the real \
          code takes the big-integer path in the default or compact configuration, or digits were truncated \
          (many_digits), or the result is subnormal / MAX / inf / zero-by-underflow, or the value shares >= 16 (f64) \
@@ -19,7 +21,7 @@ pub fn run(ctx: &Ctx, fmt: Fmt) -> i32 {
          (integer, fraction, exponent).",
     );
     rep.assume("oracle: exact decimal expansions of the two neighbouring midpoints computed with the harness's own Nat; validated by the oracle self-test against golden vectors and std on every run");
-    rep.assume("x86_64 only: 32-bit limbs, big-endian and the x87 `nightly` path are not executed");
+    rep.assume("the generated-input search runs natively on x86_64; the crate's 32-bit-limb code is covered by the interpreted i686 stage only (48 quick / 1200 thorough inputs with oracle verdicts); big-endian targets and the x87 `nightly` path are not executed");
     let cases = ctx.cases(1_600_000, 60_000_000);
     let r = run_recipes(ctx.seed, cases, ctx.threads, 1, |r, stats| {
         let c = gen::mixed(fmt, r, lim);
